@@ -34,7 +34,8 @@ Inductive task :=
 | TUser (hid : Z) (args : list Z)
 | TQueue (s : Z) (k : qkind)
 | TResolve (r : Z) (e : ec)              (* basic_resolver::on_lookup *)
-| TAcceptAbort2 (hid : Z).               (* the lambda handing a fresh socket to an aborted accept *)
+| TAcceptAbort2 (hid : Z)                (* the lambda handing a fresh socket to an aborted accept *)
+| TUdpWritable (s : Z) (e : ec).         (* the send timer of a deferred udp async_wait(wait_write) *)
 
 Definition kc := kcall task logev.
 
@@ -77,16 +78,17 @@ Definition tcp_fresh (node : Z) (acc : bool) : tcp :=
 Record udp := mkUdp {
   u_node : Z; u_open : bool; u_bound : endpoint; u_fwd : option Z; u_next_send : Z;
   u_recv_h : option Z; u_wait_recv_h : option Z; u_recv_buf : list Z; u_recv_sender : bool;
-  u_inq : list packet; u_recv_null : bool; u_qsize : Z; u_is_v4 : bool; u_df : bool; u_sqt : Z
+  u_inq : list packet; u_recv_null : bool; u_qsize : Z; u_is_v4 : bool; u_df : bool; u_sqt : Z;
+  u_wait_send_h : option Z
 }.
 #[export] Instance eta_udp : Settable _ :=
   settable! mkUdp <u_node; u_open; u_bound; u_fwd; u_next_send; u_recv_h; u_wait_recv_h; u_recv_buf;
-                   u_recv_sender; u_inq; u_recv_null; u_qsize; u_is_v4; u_df; u_sqt>.
+                   u_recv_sender; u_inq; u_recv_null; u_qsize; u_is_v4; u_df; u_sqt; u_wait_send_h>.
 
 Definition udp_fresh (node now : Z) : udp :=
   {| u_node := node; u_open := false; u_bound := ep_none; u_fwd := None; u_next_send := now; u_recv_h := None;
      u_wait_recv_h := None; u_recv_buf := []; u_recv_sender := false; u_inq := []; u_recv_null := false;
-     u_qsize := 0; u_is_v4 := true; u_df := false; u_sqt := 200000000 |}.
+     u_qsize := 0; u_is_v4 := true; u_df := false; u_sqt := 200000000; u_wait_send_h := None |}.
 
 (* one queued lookup: completion time, error, endpoints, handler *)
 Record lookup := mkLookup { l_time : Z; l_ec : Z; l_eps : list endpoint; l_h : Z }.
@@ -164,6 +166,7 @@ Inductive uop :=
 | USocksBindStart (srv port : Z)
 | UUdpSendBytes (s : Z) (data : list Z) (dst : endpoint)
 | URslvDestroy (r : Z)
+| UUdpWaitWrite (s h : Z)
 | UTcpWriteBytes (s : Z) (data : list Z) (h : Z)
 | UTcpReadRaw (s bufsize h : Z) (loop : bool).     (* loop: re-issued after every successful completion *)                    (* async_read_some whose handler also reports the bytes *)   (* async_write_some of explicit bytes *)                 (* verification hook: simulation::verif_set_next_bind_port *)
 
@@ -231,6 +234,7 @@ Definition set_rslv (w : net) (r : Z) (x : rslv) : net := w <| w_rslv := mset (w
 Definition tid_user (i : Z) : Z := 8 * i.
 Definition tid_queue (s : Z) : Z := 8 * s + 1.
 Definition tid_connect (s : Z) : Z := 8 * s + 2.
+Definition tid_usend (s : Z) : Z := 8 * s + 3.
 Definition tid_rslv (r : Z) : Z := 8 * r + 6.
 
 Definition qser := ser_double.
